@@ -91,7 +91,7 @@ class Evaluator:
     def call_function(self, fndef, args, kwargs, bound_self=None):
         """Evaluate a helper (module function, method of the class, nested def or lambda)
         with the same intrinsics; a modelled exception propagates to the caller."""
-        if self.depth > 6:
+        if self.depth > 16:
             raise AnalysisError('helper calls nest too deeply')
         a = fndef.args
         if a.vararg or a.kwarg or a.posonlyargs:
@@ -118,16 +118,19 @@ class Evaluator:
             env[ka.arg] = kwargs[ka.arg] if ka.arg in kwargs else self.expr(d, {})
         sub = Evaluator(fndef, self.intrinsics, None, self.model_types, self.module, self.cls, self.depth + 1)
         sub.steps = self.steps
+        is_gen = not isinstance(fndef, ast.Lambda) and any(isinstance(x, (ast.Yield, ast.YieldFrom)) for x in _walk_own(fndef))
+        if is_gen:
+            sub.yields = []  # a generator is evaluated eagerly: its values in order
         try:
             if isinstance(fndef, ast.Lambda):
                 return sub.expr(fndef.body, env)
             sub.block(fndef.body, env)
         except _Return as r:
-            return r.value
+            return sub.yields if is_gen else r.value
         finally:
             self.steps = sub.steps
             self.trace.extend(sub.trace)
-        return None
+        return sub.yields if is_gen else None
 
     def run(_self, **args):
         self = _self
@@ -349,6 +352,16 @@ class Evaluator:
             return [self.expr(x, env) for x in e.elts]
         if isinstance(e, ast.Dict):
             return {self.expr(k, env): self.expr(v, env) for k, v in zip(e.keys, e.values)}
+        if isinstance(e, ast.Yield):
+            if not hasattr(self, 'yields'):
+                raise AnalysisError('yield outside a modelled generator')
+            self.yields.append(self.expr(e.value, env) if e.value is not None else None)
+            return None
+        if isinstance(e, ast.YieldFrom):
+            if not hasattr(self, 'yields'):
+                raise AnalysisError('yield from outside a modelled generator')
+            self.yields.extend(list(self.expr(e.value, env)))
+            return None
         if isinstance(e, ast.Lambda):
             e._closure = env
             return lambda *a, **k: self.call_function(e, a, k)
@@ -470,6 +483,8 @@ class Evaluator:
                     return lambda *a, **k: self.call_function(mem, a, k)
                 raise AnalysisError(f'class attribute {text(e)} not found')
             v = self.expr(e.value, env)
+            if isinstance(v, Opaque):
+                return Opaque(f'{v.desc}.{e.attr}')
             if isinstance(v, Record):
                 if not hasattr(v, e.attr) and not isinstance(e.value, ast.Name) or (isinstance(e.value, ast.Name) and e.value.id == 'self' and e.attr not in v.__dict__):
                     mem = self._class_member(e.attr)
@@ -510,7 +525,11 @@ class Evaluator:
             if isinstance(f, ast.Name) and f.id == 'isinstance' and len(e.args) == 2:
                 v = self.expr(e.args[0], env)
                 tn = text(e.args[1])
-                kinds = {'str': str, 'bytes': bytes, 'tuple': tuple, 'list': list, 'dict': dict, 'int': int}
+                kinds = {'str': str, 'bytes': bytes, 'tuple': tuple, 'list': list, 'dict': dict, 'int': int, 'float': float, 'bool': bool}
+                if isinstance(self.intrinsics.get(tn), type):
+                    return isinstance(v, self.intrinsics[tn])  # a model class supplied by the rule
+                if isinstance(e.args[1], ast.Tuple) and all(text(x) in kinds for x in e.args[1].elts):
+                    return isinstance(v, tuple(kinds[text(x)] for x in e.args[1].elts))
                 if tn not in kinds:
                     raise AnalysisError(f'isinstance test against unmodelled type {tn}')
                 return isinstance(v, kinds[tn])
@@ -539,8 +558,8 @@ class Evaluator:
                 b = self._module_binding(f.id)
                 if isinstance(b, ast.FunctionDef):
                     return self.call_function(b, args, kwargs)
-                if f.id in ('frozenset', 'bytes', 'sum', 'repr', 'iter', 'next', 'filter', 'hasattr', 'callable'):
-                    r = {'frozenset': frozenset, 'bytes': bytes, 'sum': sum, 'repr': repr, 'iter': iter, 'next': next, 'filter': filter, 'hasattr': hasattr, 'callable': callable}[f.id](*args, **kwargs)
+                if f.id in ('frozenset', 'bytes', 'sum', 'repr', 'iter', 'next', 'filter', 'hasattr', 'callable', 'getattr'):
+                    r = {'frozenset': frozenset, 'bytes': bytes, 'sum': sum, 'repr': repr, 'iter': iter, 'next': next, 'filter': filter, 'hasattr': hasattr, 'callable': callable, 'getattr': getattr}[f.id](*args, **kwargs)
                     return list(r) if f.id == 'filter' else r
                 raise AnalysisError(f'call of unmodelled function {f.id}')
             if isinstance(f, ast.Attribute):
@@ -565,6 +584,17 @@ class Evaluator:
                     raise _Raise('AttributeError')
                 raise AnalysisError(f'call of unmodelled method {d}')
         raise AnalysisError(f'unsupported expression in decision procedure: {text(e)[:60]}')
+
+
+def _walk_own(fndef):
+    """Nodes of a function body, not descending into nested functions."""
+    todo = list(fndef.body)
+    while todo:
+        n = todo.pop()
+        yield n
+        for c in ast.iter_child_nodes(n):
+            if not isinstance(c, (ast.FunctionDef, ast.Lambda, ast.ClassDef)):
+                todo.append(c)
 
 
 class _Break(Exception):
